@@ -288,6 +288,7 @@ def register(M):
     reg('Result', None, 'is_ok', lambda m, a, k: val(m, a[0]).var == 0)
     reg('Result', None, 'is_err', lambda m, a, k: val(m, a[0]).var == 1)
     reg('Option', None, 'unwrap_or', lambda m, a, k: val(m, a[0]).fields[0] if val(m, a[0]).var == 1 else a[1])
+    reg('Option', None, 'unwrap_or_else', lambda m, a, k: val(m, a[0]).fields[0] if val(m, a[0]).var == 1 else call_closure(m, a[1], []))
     reg('Option', None, 'ok_or', lambda m, a, k: ok(val(m, a[0]).fields[0]) if val(m, a[0]).var == 1 else err(a[1]))
     reg('Result', None, 'ok', lambda m, a, k: some(val(m, a[0]).fields[0]) if val(m, a[0]).var == 0 else NONE)
 
@@ -336,6 +337,11 @@ def register(M):
         o = val(m, a[0])
         return call_closure(m, a[1], [o.fields[0]]) if o.var == 1 else NONE
     reg('Option', None, 'and_then', opt_and_then)
+
+    def res_and_then(m, a, k):
+        o = val(m, a[0])
+        return call_closure(m, a[1], [o.fields[0]]) if o.var == 0 else o
+    reg('Result', None, 'and_then', res_and_then)
     reg('Option', 'Clone', 'clone', lambda m, a, k: val(m, a[0]))
     reg('Result', 'Clone', 'clone', lambda m, a, k: val(m, a[0]))
 
@@ -743,6 +749,27 @@ def register(M):
         reg(t, None, 'sort', vec_sort)
         reg(t, None, 'sort_unstable', vec_sort)
 
+    def ord_key(m, v):
+        """derive(Ord) order of a concrete value as a Python tuple (Option: None < Some; structs fieldwise)"""
+        v = val(m, v)
+        if isinstance(v, Adt):
+            return (v.var,) + tuple(ord_key(m, f) for f in v.fields)
+        if is_sym(v):
+            raise NotEncodable('sort_by_key on a symbolic key')
+        return (v,)
+
+    def vec_sort_by_key(m, a, k):
+        r = innermost_ref(m, a[0])
+        v = val(m, r)
+        keyed = []
+        for i, x in enumerate(v.fields):
+            keyed.append((ord_key(m, call_closure(m, a[1], [Ref(r.cell, r.path + (i,))])), i, x))
+        keyed.sort(key=lambda t: (t[0], t[1]))       # stable
+        store(r, Adt(v.ty, 0, [x for _, _, x in keyed]), m.ctx.resolve)
+        return UNIT
+    for t in ('Vec', '[array]', 'slice'):
+        reg(t, None, 'sort_by_key', vec_sort_by_key)
+
     def vec_dedup(m, a, k):
         r = innermost_ref(m, a[0])
         v = val(m, r)
@@ -850,6 +877,8 @@ def register(M):
         reg(t, 'Iterator', 'chain', lambda m, a, k: mk_iter('chain', (into_iter_value(m, a[0]), into_iter_value(m, a[1]))))
         reg(t, 'Iterator', 'zip', lambda m, a, k: mk_iter('zip', (into_iter_value(m, a[0]), into_iter_value(m, a[1]))))
         reg(t, 'Iterator', 'by_ref', lambda m, a, k: a[0])
+        # scan(init, f): the running state lives in a cell handed to the closure as `&mut St`
+        reg(t, 'Iterator', 'scan', lambda m, a, k: mk_iter('scan', into_iter_value(m, a[0]), a[2], Cell(a[1])))
 
         def it_take(m, a, k):
             n = val(m, a[1])
